@@ -502,6 +502,12 @@ Error CodeHolder::grow_buffer(CodeBuffer* cb, size_t n) noexcept {
     size_t old = capacity;
     size_t capacity_increase = capacity < Globals::kGrowThreshold ? capacity : Globals::kGrowThreshold;
 
+    // When growing linearly add all `kGrowThreshold` steps that are still missing at once. The result is the same,
+    // but a request close to `SIZE_MAX` doesn't iterate `SIZE_MAX / kGrowThreshold` times before it's refused.
+    if (capacity >= Globals::kGrowThreshold && required > capacity) {
+      capacity_increase += ((required - capacity) / Globals::kGrowThreshold) * size_t(Globals::kGrowThreshold);
+    }
+
     capacity += capacity_increase;
 
     // Overflow.
